@@ -1640,6 +1640,18 @@ func (f *Frame) atSite(st *execState, name string, ord int, blk *ssa.BasicBlock,
 		} else if ac.Nth != ord {
 			continue
 		}
+		// "@C08 expr": the clause belongs to the named properties only
+		if len(ac.C.Props) > 0 && e.w.property != "" {
+			found := false
+			for _, p := range ac.C.Props {
+				if p == e.w.property {
+					found = true
+				}
+			}
+			if !found {
+				continue
+			}
+		}
 		// clauses speak about memory: unpacked objects are written back into a
 		// scratch copy of the state for their evaluation
 		stv := st
